@@ -131,6 +131,19 @@ CHECKS = {
              "minimality 'up to floating-point ties' is about the computed ordinates. Axioms: real-number axioms of the standard "
              "library for the theorems over R; the carrier-generic ones are closed.",
         technique="Coq proof (carrier-generic selection lemmas, reals for optimality/self-consistency) + bit-exact correspondence with oracle tables"),
+    "C05": dict(
+        cat="proof",
+        text="Theorems (Props/C05.v): for any carrier the reported lambda is one of 10**srange (or the sentinel's 0), fewer than five "
+             "valid cells pass through, and the result - robust or not - is independent of the placeholder that marks missing cells; over "
+             "the reals, without robust weighting the reported lambda minimises the GCV score over the grid and the band is ws2dgu at that "
+             "lambda. The binary64 models of ws2dwcv / ws2dwcvp (robust iterations, MAD over weighted cells, zero-MAD guard, asymmetric "
+             "final fit) are compared bit-for-bit with the compiled kernels and through whitswcv with its defaults; degenerate residual "
+             "families (constant, exactly linear, flat with spikes) are generated on purpose and checked not to be zeroed.",
+        ref="7 (C05)",
+        note="Trusted: Coq kernel + vm_compute; harness; libm cos / pow tables; np.median modelled as sort + middle; sequential sums. The "
+             "robust-mode clauses 'finite curve', 'linear preserved' are checked on the implementation and by the bit-exact tie, not "
+             "proved. Axioms: real-number axioms for the two theorems over R; the carrier-generic ones are closed.",
+        technique="Coq proof (scan invariants, carrier-generic placeholder independence) + bit-exact correspondence with oracle tables"),
 }
 
 PENDING = "no check has been built for this property yet (work in progress; see DESIGN.md section 7 for the plan)"
